@@ -339,6 +339,14 @@ class Interp:
         c = self.use_contracts.get(key)
         if c is not None and not (self.top is not None and key == self.top and self.depth == 0):
             from .verify import apply_contract_at_call
+            if isinstance(c, list):
+                # several contracts describe this function: the first one whose parameter kinds fit the arguments
+                bound = self.bind_args(f, args, kwargs)
+                fit = [k for k in c if all(k.params[n].accepts(v) for n, v in bound.items() if n in k.params)]
+                if not fit:
+                    self.unsupported(f"call of {f.qualname}: none of its contracts ({', '.join(k.name for k in c)}) "
+                                     f"covers these argument kinds", node)
+                c = fit[0]
             return apply_contract_at_call(self, c, f, args, kwargs, node)
         # pure spec functions (defined in contract / spec modules) called again with the very same
         # immutable arguments give the same value: memoised per path
